@@ -707,12 +707,12 @@ func c02Store(c *core.Ctx) {
 	cert := "(aggsender/types.AggsenderFlow).BuildCertificate(a.flow, ctx, (aggsender/types.AggsenderFlow).GetCertificateBuildParams(a.flow, ctx)#0)#0"
 	params := "(aggsender/types.AggsenderFlow).GetCertificateBuildParams(a.flow, ctx)#0"
 	want := map[string]string{
-		"Height":           cert + ".Height",
-		"NewLocalExitRoot": cert + ".NewLocalExitRoot",
-		"RetryCount":       params + ".RetryCount",
-		"FromBlock":        params + ".FromBlock",
-		"ToBlock":          params + ".ToBlock",
-		"CertificateID":    "(agglayer.AgglayerClientInterface).SendCertificate(a.aggLayerClient, ctx, " + cert + ")#0",
+		"Height":              cert + ".Height",
+		"NewLocalExitRoot":    cert + ".NewLocalExitRoot",
+		"RetryCount":          params + ".RetryCount",
+		"FromBlock":           params + ".FromBlock",
+		"ToBlock":             params + ".ToBlock",
+		"CertificateID":       "(agglayer.AgglayerClientInterface).SendCertificate(a.aggLayerClient, ctx, " + cert + ")#0",
 		"L1InfoTreeLeafCount": params + ".L1InfoTreeLeafCount",
 	}
 	if hdr == nil || hdr.Op != "lit" {
@@ -760,8 +760,8 @@ func c02Store(c *core.Ctx) {
 
 func init() {
 	register(&Property{
-		ID:    "C02",
-		Level: "other",
+		ID:          "C02",
+		Level:       "other",
 		Explanation: "Decides the local gates and derivations the gap-free certificate chain rests on, on every path: C02-gate — each sendCertificate call in the loop is reachable only on !ExistPendingCerts of a CheckPendingCertificatesStatus call of the same iteration, and no second send follows without a new check; C02-failclosed — every error edge of the status check (storage read, GetCertificateHeader, status update) returns ExistPendingCerts=true, a certificate found open after its status was refreshed forces the result to true (boolean accumulator tracked path-sensitively), and the open/closed predicates and NonSettledStatuses are read from their bodies and initialiser; C02-submit — SendCertificate is invoked from one function, itself called only from the gated loop; C02-next — every non-error return of getNextHeightAndPreviousLER is matched, with its dominating branch facts, against {settled → (Height+1, NewLocalExitRoot); in error with previous LER → (Height, *PreviousLocalExitRoot); in error at height 0 / no certificate → (0, start LER); in error → (Height, new LER of the stored, existing, settled certificate at Height-1)} and is unreachable for an open certificate; C02-range — getLastSentBlockAndRetryCount's return cases and the FromBlock = previous+1 / ToBlock / RetryCount / events provenance in GetCertificateBuildParamsInternal; C02-retry — a retry whose first block differs is refused, both flows return parameters only after VerifyBuildParams, the prover's resend literal copies the range of the stored header; C02-store — the stored header takes Height/LERs/ID from the sent certificate and its answer, range and retry count from the parameters, only after the Agglayer accepted it. The global 'settled certificates contain every event exactly once over all schedules' is a protocol property over interleavings and is not decided. Added after round 7: C02-pk (keys of the certificate tables, shared with C13), C02-inputs (start-up recovery decides on the results of all three lookups; an error is never read as absent).",
 		Rules: []Rule{
 			{ID: "C02-gate", Floor: 2, Run: c02Gate, Text: "[DOM] send only on !ExistPendingCerts of a fresh status check"},
